@@ -89,6 +89,8 @@ Choices ==
     [] Family = "loop" ->
          {[Node(0, "loop") EXCEPT !.form = "count", !.cnt = c] : c \in 0..3}
          \cup {[Node(0, "loop") EXCEPT !.form = "count", !.cnt = c, !.lv = "a", !.start = 1, !.step = 2] : c \in 1..3}
+         \* negative start and step (the harness additionally scales the loop variable by a dyadic factor)
+         \cup {[Node(0, "loop") EXCEPT !.form = "count", !.cnt = c, !.lv = "a", !.start = -2, !.step = -2] : c \in 2..3}
          \* <for var="a" data="1, 2, .., c">: the items are 1..c
          \cup {[Node(0, "loop") EXCEPT !.form = "for", !.cnt = c, !.lv = "a", !.start = 1, !.step = 1] : c \in 1..3}
          \cup {[Node(0, "loop") EXCEPT !.form = "while", !.cond = Lt("b", c)] : c \in {0, 2, 3}}
